@@ -198,6 +198,12 @@ class ConcurrentExecutor(ABC, Generic[CallableType, ResultType]):
             "▶️ Executing concurrent operation, items: %d", len(self.executables)
         )
 
+        if not self.executables:
+            # Nothing to run: no task would ever set the completion event (and a
+            # ThreadPoolExecutor cannot be created with zero workers).
+            self.executables_with_state = []
+            return self._create_result()
+
         max_workers = self.max_concurrency or len(self.executables)
 
         self.executables_with_state = [
